@@ -134,7 +134,16 @@ fn oracle(s: &ProgScene<X>, t: &Trace) -> Vec<Violation> {
         }
     }
     // timers never keep the actor alive / die with it
-    if x.term != Term::Never {
+    // (only once the terminating action has really been issued: with timer expiry racing the
+    // runnable client, the clock can reach the horizon before the client gets there)
+    let action_issued = s.clients[0]
+        .ops
+        .len()
+        .checked_sub(1)
+        .and_then(|i| an.op(0, i as u16))
+        .and_then(|o| o.end)
+        .is_some_and(|e| t.res.end == crate::vexec::EndReason::Quiescent || t.log[e].time + 5 <= s_horizon(s));
+    if x.term != Term::Never && action_issued {
         match term {
             None => out.push(Violation {
                 clause: "timers-do-not-prolong",
@@ -329,6 +338,7 @@ pub fn property() -> Property {
         id: "C10",
         cases,
         clauses: &["not-before-period", "no-fire-after-termination", "exact-period", "no-timer-task-leaked"],
+        full_rerun_check: true,
         assumptions: &[
             "exact clauses use discrete-event time (the clock advances only when nothing is runnable) and instant handlers; the racy runs let up to two deadlines fire although tasks are runnable and check the one-sided clauses only",
             "a deadline that coincides with the instant of the terminating action may or may not be delivered",
